@@ -132,6 +132,16 @@ func makeCreds(r *vlib.R, authToken string, key []byte, validJWT string, userID 
 		{"jwt-hs512", true, "Bearer " + sign(jwt.SigningMethodHS512, key, good), "reject"},
 		{"jwt-none", true, "Bearer " + sign(jwt.SigningMethodNone, jwt.UnsafeAllowNoneSignatureType, good), "reject"},
 		{"jwt-expired", true, "Bearer " + sign(jwt.SigningMethodHS256, key, expired), "reject"},
+		// a bad signature together with a claim anomaly of its own (validators that collect several
+		// findings must not let one of them excuse the other)
+		{"jwt-other-key-future-iat", true, "Bearer " + sign(jwt.SigningMethodHS256, otherKey, jwt.StandardClaims{ExpiresAt: time.Now().Add(time.Hour).Unix(), IssuedAt: time.Now().Add(time.Hour).Unix(), Issuer: "simpleiot", Id: userID}), "reject"},
+		{"jwt-other-key-future-nbf", true, "Bearer " + sign(jwt.SigningMethodHS256, otherKey, jwt.StandardClaims{ExpiresAt: time.Now().Add(2 * time.Hour).Unix(), NotBefore: time.Now().Add(time.Hour).Unix(), Issuer: "simpleiot", Id: userID}), "reject"},
+		{"jwt-other-key-no-exp", true, "Bearer " + sign(jwt.SigningMethodHS256, otherKey, jwt.StandardClaims{Issuer: "simpleiot", Id: userID}), "reject"},
+		{"jwt-other-key-expired-future-iat", true, "Bearer " + sign(jwt.SigningMethodHS256, otherKey, jwt.StandardClaims{ExpiresAt: time.Now().Add(-time.Hour).Unix(), IssuedAt: time.Now().Add(time.Hour).Unix(), Issuer: "simpleiot", Id: userID}), "reject"},
+		{"jwt-empty-key-future-iat", true, "Bearer " + sign(jwt.SigningMethodHS256, []byte{}, jwt.StandardClaims{ExpiresAt: time.Now().Add(time.Hour).Unix(), IssuedAt: time.Now().Add(time.Hour).Unix(), Issuer: "simpleiot", Id: userID}), "reject"},
+		{"jwt-hs512-future-iat", true, "Bearer " + sign(jwt.SigningMethodHS512, key, jwt.StandardClaims{ExpiresAt: time.Now().Add(time.Hour).Unix(), IssuedAt: time.Now().Add(time.Hour).Unix(), Issuer: "simpleiot", Id: userID}), "reject"},
+		{"jwt-none-future-iat", true, "Bearer " + sign(jwt.SigningMethodNone, jwt.UnsafeAllowNoneSignatureType, jwt.StandardClaims{ExpiresAt: time.Now().Add(time.Hour).Unix(), IssuedAt: time.Now().Add(time.Hour).Unix(), Issuer: "simpleiot", Id: userID}), "reject"},
+		{"jwt-expired-future-iat", true, "Bearer " + sign(jwt.SigningMethodHS256, key, jwt.StandardClaims{ExpiresAt: time.Now().Add(-time.Hour).Unix(), IssuedAt: time.Now().Add(time.Hour).Unix(), Issuer: "simpleiot", Id: userID}), "reject"},
 		{"jwt-tampered-payload", true, "Bearer " + tampered, "reject"},
 		{"jwt-truncated", true, "Bearer " + validJWT[:len(validJWT)-3], "reject"},
 		{"jwt-no-signature", true, "Bearer " + strings.Join(parts[:2], ".") + ".", "reject"},
@@ -197,7 +207,7 @@ func c09Routes() []routeCase {
 func runC09(tier string, _ []string) int {
 	c := vlib.NewCtx("C09", tier, "exploration")
 	vlib.SetPortBlock(9)
-	c.SetRule("part A: an instance configured with an auth token; methods x node routes (/v1/nodes, /:id, /points, /samples, /parents, /not, unknown; path-cleaning variants) x 27 Authorization values (absent, empty, the token and near misses, Bearer variants, the instance's JWT, JWTs minted with the instance key read from the store file: other key, empty key, HS384, HS512, none, expired, payload-tampered, truncated, unsigned, garbage; plus a token used while valid and again after its expiry) x bodies; then all credentials at once from 12 goroutines (each answer must be the one its own credential deserves); each probe targets a fresh id and an existing node; monitor: status 401 for every non-credential, no bus message mentioning the probe id on a '>' tap, tree dump unchanged; credentials must be served; NATS TCP and WebSocket connects without / with a wrong token must fail. part A2: the same forged-token probes (tokens signed with an empty / zero key) against an instance restarted on a store whose first start was killed just before the signing key was written (real crash of a writer process at the sqlite.initJwtKey.beforeWrite site). part B: user placements (created, moved, mirrored, deleted, re-added, under a deleted group, two users with one e-mail, wrong password) vs /v1/auth, asked after every single step of a scenario and at its end: token issued exactly when the model finds a live path to the root; the node listing for the issued token is a subset of the subtrees of the user's live placements. distinct = (credential, route kind, outcome) / (placement scenario, model verdict)")
+	c.SetRule("part A: an instance configured with an auth token; methods x node routes (/v1/nodes, /:id, /points, /samples, /parents, /not, unknown; path-cleaning variants) x 35 Authorization values (absent, empty, the token and near misses, Bearer variants, the instance's JWT, JWTs minted with the instance key read from the store file: other key, empty key, HS384, HS512, none, expired, payload-tampered, truncated, unsigned, garbage, bad signatures combined with future iat / nbf / missing exp; plus a token used while valid and again after its expiry) x bodies; then all credentials at once from 12 goroutines (each answer must be the one its own credential deserves); each probe targets a fresh id and an existing node; monitor: status 401 for every non-credential, no bus message mentioning the probe id on a '>' tap, tree dump unchanged; credentials must be served; NATS TCP and WebSocket connects without / with a wrong token must fail. part A2: the same forged-token probes (tokens signed with an empty / zero key) against an instance restarted on a store whose first start was killed just before the signing key was written (real crash of a writer process at the sqlite.initJwtKey.beforeWrite site). part B: user placements (created, moved, mirrored, deleted, re-added, under a deleted group, two users with one e-mail, wrong password) vs /v1/auth, asked after every single step of a scenario and at its end: token issued exactly when the model finds a live path to the root; the node listing for the issued token is a subset of the subtrees of the user's live placements. distinct = (credential, route kind, outcome) / (placement scenario, model verdict)")
 	c.Assume("'open' header forms (whitespace around the token, lower-case scheme) are only required to leave no trace if answered 401")
 	cl := &http.Client{Timeout: 30 * time.Second}
 
